@@ -226,6 +226,7 @@ func TestVerifC20Client(t *testing.T) {
 	vfProcessInit()
 	r := vfev.New("C20", "pb-client")
 	defer r.Finish()
+	defer r.RecoverPanic()
 	pairs := vfev.Thorough()
 	full := vfFullClient()
 	if gaps := vfTemplateGaps(reflect.TypeOf(ClientComMessage{}), full, func(string) bool { return false }); len(gaps) > 0 {
@@ -386,6 +387,7 @@ func TestVerifC20Server(t *testing.T) {
 	vfProcessInit()
 	r := vfev.New("C20", "pb-server")
 	defer r.Finish()
+	defer r.RecoverPanic()
 	pairs := vfev.Thorough()
 	full := vfFullServer()
 	if gaps := vfTemplateGaps(reflect.TypeOf(ServerComMessage{}), full, func(p string) bool { return strings.HasSuffix(p, "acs.mode") }); len(gaps) > 0 {
